@@ -186,6 +186,39 @@ var errExceptions = []errException{
 	{"(*sml.parser).parseDataItemSize", "strconv.Atoi", "digits of a size bound, or the documented empty lower bound of [..n] (0); overflow clamps to MaxInt, no item has that size, so the size check reports it"},
 }
 
+// errExceptionFor: the exception recorded for fn itself, or - fn being a
+// helper called from nowhere but functions with that exception - for all of
+// its callers (two levels at most).
+func errExceptionFor(p *Prog, fn *ssa.Function, cname string, depth int) string {
+	for _, e := range errExceptions {
+		if e.fn == FnName(fn) && e.callee == cname {
+			return e.reason
+		}
+	}
+	if depth >= 2 || exported(fn) {
+		return ""
+	}
+	node := p.CG.Nodes[fn]
+	if node == nil || len(node.In) == 0 {
+		return ""
+	}
+	reason := ""
+	for _, e := range node.In {
+		if e.Caller.Func == fn {
+			continue
+		}
+		rsn := errExceptionFor(p, e.Caller.Func, cname, depth+1)
+		if rsn == "" {
+			return ""
+		}
+		reason = rsn
+	}
+	if reason == "" {
+		return ""
+	}
+	return reason + " (in a helper called only from there)"
+}
+
 func usedValue(v ssa.Value) bool {
 	refs := v.Referrers()
 	if refs == nil {
@@ -242,12 +275,7 @@ func ruleErrDiscipline(p *Prog, r *Report) {
 					r.ok(rule, key, p.Pos(call.Pos()), "the error result is inspected")
 					continue
 				}
-				exc := ""
-				for _, e := range errExceptions {
-					if e.fn == FnName(fn) && e.callee == cname {
-						exc = e.reason
-					}
-				}
+				exc := errExceptionFor(p, fn, cname, 0)
 				if exc != "" {
 					r.ok(rule, key, p.Pos(call.Pos()), "error discarded — accepted exception: "+exc)
 				} else {
@@ -468,7 +496,46 @@ func ruleRecursion(entryPkg string) func(p *Prog, r *Report) {
 			}
 			sort.Strings(names)
 			n++
-			key := rule + ":" + strings.Join(names, "+")
+			// the cycle is named by where it is entered from outside and by which of
+			// its members call back into those entries: helpers put between the
+			// two leave the name alone, a different cycle gets a different one
+			inComp := map[*ssa.Function]bool{}
+			for _, f := range comp {
+				inComp[f] = true
+			}
+			entries := map[*ssa.Function]bool{}
+			for f := range reach {
+				if inComp[f] {
+					continue
+				}
+				for _, c := range succ(f) {
+					if inComp[c] {
+						entries[c] = true
+					}
+				}
+			}
+			var entryNames, backNames []string
+			backs := map[string]bool{}
+			for _, f := range comp {
+				if entries[f] {
+					entryNames = append(entryNames, FnName(f))
+				}
+				for _, c := range succ(f) {
+					if entries[c] && !backs[FnName(f)] {
+						backs[FnName(f)] = true
+						backNames = append(backNames, FnName(f))
+					}
+				}
+			}
+			sort.Strings(entryNames)
+			sort.Strings(backNames)
+			key := rule + ":" + strings.Join(entryNames, "+")
+			if len(comp) > 1 {
+				key += "<-" + strings.Join(backNames, "+")
+			}
+			if len(entryNames) == 0 {
+				key = rule + ":" + strings.Join(names, "+")
+			}
 			if g := depthGuard(comp); g != "" {
 				r.ok(rule, key, p.Pos(comp[0].Pos()), "the cycle is depth-limited: "+g)
 			} else {
